@@ -198,6 +198,25 @@ theorem fromSequence_spec (dist : Nat → Nat → Int) (N : Nat) (p h : Int) (R 
   all_goals simp at hR
 
 
+/-- `from_sequence_and_distance` never indexes outside a list or array and both of its loops end:
+for an integer flow power it returns an instance or raises one of its own errors (distance
+guard, `flow_power`/`horizon` guard, integer overflow of a flow) -/
+theorem fromSequence_total (dist : Nat → Nat → Int) (N : Nat) (p h : Int) :
+    fromSequence dist N p h = .err ∨ ∃ R, fromSequence dist N p h = .ok R := by
+  unfold fromSequence
+  rcases (dedupe_total dist N).1 with he | ⟨s, hs⟩
+  · simp [he]
+  · simp only [hs]
+    have hm := dedupe_matrix dist N s hs
+    have hsq : Square s.rows := by
+      intro r hr; rw [hm.2.1 r hr, hm.1]
+    have hno := mkInstance_ne_oob s.rows p h hsq
+    cases hI : mkInstance s.rows p h with
+    | ok I => exact Or.inr ⟨_, rfl⟩
+    | err => exact Or.inl rfl
+    | oob => exact absurd hI hno.1
+    | diverge => exact absurd hI hno.2
+
 /-! ## the kernel `swap_distance`
 
 `p1`, `p2` are permutations of `0..n-1` (the arrays handed to the kernel are their images under
